@@ -16,7 +16,7 @@
 From Coq Require Import String Ascii.
 From Coq Require Import List NArith Bool.
 From Gluon Require Import Model.Chunks Model.SqlBindFacts Model.RelDb Model.RelDbFacts Model.MailboxRef Model.MailboxActions
-  Proofs.RelDbProofs Proofs.MailboxProofs Gen.FactsSqlBind.
+  Proofs.RelDbProofs Proofs.MailboxProofs Gen.FactsSqlBind Model.SessionNews Proofs.SessionNewsProofs Gen.FactsResponders.
 Import ListNotations.
 Open Scope list_scope.
 Open Scope N_scope.
@@ -67,6 +67,66 @@ Theorem C03_current_source_refines : forall cs d r, rel d r -> run_wf cs r = tru
   rel (run_impl stmt_facts remove_flag_nocase cs d) (run_spec cs r).
 Proof. exact (fun cs d r => run_sim_ci stmt_facts remove_flag_nocase cs d r (proj1 C03_facts_ok) (proj2 C03_facts_ok)). Qed.
 Print Assumptions C03_current_source_refines.
+
+(* ---- the news a session is told (Model/SessionNews.v) ---- *)
+(* EXPUNGE / CLOSE remove what the session's snapshot marks \Deleted and message sets are resolved over the snapshot's rows,
+   so the content of the mailboxes depends on what the responders of OTHER sessions' commands do to the snapshot.
+
+   Source facts (regenerated on every run): inside the handle methods of internal/state/responders.go the flag set of the
+   update — one Go map shared by all responders created from the update — is only read (receiver of FlagSet methods
+   that do not change their receiver according to imap/flags.go, argument of FlagSet methods), the in-place methods are
+   only applied to variables declared in the method, and the FetchFlagOpSet case of fetch.handle takes a copy. *)
+Theorem C03_responders_only_read_the_update : 
+  responder_facts_ok handle_flagset_uses handle_inplace_calls flagset_methods flagset_mutators fetch_set_clones = true.
+Proof. vm_compute. reflexivity. Qed.
+Print Assumptions C03_responders_only_read_the_update.
+
+(* State.close drops the pending responders; the snapshot is only replaced by Select / Examine after a close guarded by
+   `snap != nil`, and by close itself *)
+Theorem C03_close_drops_pending_news : close_resets_res = true /\ setsnap_ok setsnap_calls = true.
+Proof. vm_compute. split; reflexivity. Qed.
+Print Assumptions C03_close_drops_pending_news.
+
+(* one STORE FLAGS (replace form) handed to any number of sessions flushing in any order: with the copy every session
+   computes the specified function of the update, independently of the sessions that flushed before it *)
+Theorem C03_set_update_order_irrelevant : forall (fl : Type) from (u : mflags fl) ss,
+  flush_set fetch_set_clones from u ss = map (handle_set from u) ss.
+Proof. exact (fun fl => flush_set_spec fl fetch_set_clones eq_refl). Qed.
+Print Assumptions C03_set_update_order_irrelevant.
+
+(* and what its snapshot then marks \Deleted is what ITS mailbox marks \Deleted in the index after the STORE (the EXPUNGE
+   view condition of run_wf is kept by flag updates issued through any mailbox) *)
+Theorem C03_set_update_keeps_deleted_per_mailbox : forall (fl : Type) from (u : mflags fl) ss i s,
+  nth_error ss i = Some s -> s_has s = true ->
+  exists s', nth_error (flush_set fetch_set_clones from u ss) i = Some s' /\ s_box s' = s_box s /\
+    snd (s_cur s') = box_deleted_after from u (s_box s) (snd (s_cur s)).
+Proof. exact (fun fl => flush_set_deleted_agrees fl fetch_set_clones eq_refl). Qed.
+Print Assumptions C03_set_update_keeps_deleted_per_mailbox.
+
+(* without the copy: a session of another mailbox, in which the message is \Deleted, flushes first; the session of the
+   mailbox of the STORE then marks the message \Deleted (and its EXPUNGE removes it) although the index says it is not *)
+Theorem C03_shared_update_refuted :
+  map (fun s => snd (s_cur s)) (flush_set false 1 (tt, false) shared_demo) = [true; true] /\
+  map (fun s => snd (s_cur s)) (map (handle_set 1 (tt, false)) shared_demo) = [true; false] /\
+  map (fun s => box_deleted_after 1 (tt, false) (s_box s) (snd (s_cur s))) shared_demo = [true; false] /\
+  map (fun s => snd (s_cur s)) (flush_set false 1 (tt, false) (rev shared_demo)) = [false; true].
+Proof. exact flush_set_shared_refuted. Qed.
+Print Assumptions C03_shared_update_refuted.
+
+(* a session that selects another mailbox while news of the one it leaves are pending is shown, at its next flush,
+   exactly the rows of the new mailbox as read from the index *)
+Theorem C03_switch_mailbox_with_pending_news : forall load b ns s, sess_wf s ->
+  flush_news (select_impl close_resets_res load b (fold_right push_news s ns)) = mkSess (Some (b, load b)) [].
+Proof. exact (pushes_then_select_then_flush close_resets_res eq_refl). Qed.
+Print Assumptions C03_switch_mailbox_with_pending_news.
+
+Theorem C03_switch_without_reset_refuted :
+  let s := push_news (NExists 11 2) (mkSess (Some (1, [(1, 10)])) []) in
+  let load := fun b => if N.eqb b 2 then [(1, 20)] else [(1, 10); (2, 11)] in
+  ss_snap (flush_news (select_impl false load 2 s)) = Some (2, [(1, 20); (2, 11)]) /\
+  ss_snap (flush_news (select_impl true load 2 s)) = Some (2, [(1, 20)]).
+Proof. exact select_without_reset_refuted. Qed.
+Print Assumptions C03_switch_without_reset_refuted.
 
 (* ---- non-vacuity ---- *)
 (* the empty index and an index with two empty mailboxes are related to the corresponding reference states *)
